@@ -1446,6 +1446,12 @@ ALPHABET = [
     ('tgt-rm', c_target('prog', 'target_rm')),
     ('tgt-add', c_target('newt', 'target_add', ['x.c', 'y.c'])),
     ('tgt-add-existing', c_target('prog', 'target_add', ['x.c'])),
+    # the new statements name variables after the target: every character a target name may hold (Reference manual: "a-z, A-Z, 0-9, _ - . + and space"...)
+    ('tgt-add-dot', c_target('new.t', 'target_add', ['x.c'])),
+    ('tgt-add-plus', c_target('new+t', 'target_add', ['x.c'])),
+    ('tgt-add-dash-space', c_target('new-t two', 'target_add', ['x.c'])),
+    ('tgt-add-digit-first', c_target('2new', 'target_add', ['x.c'])),
+    ('tgt-add-at', c_target('new@t', 'target_add', ['x.c'])),
     ('add-unknown-target', c_target('nope', 'src_add', ['new.c'])),
     ('kw-set-new-true', c_kwargs('set', 'target', 'prog', {'pie': True})),
     ('kw-set-new-false', c_kwargs('set', 'target', 'prog', {'pie': False})),
